@@ -164,16 +164,18 @@ class _SocketHub:
         """Recv a message to a given socket"""
         t_start = timer()
         while True:
+            # Check for a message and take it in one go, since another thread
+            # receiving on the same socket could otherwise take it in between.
             with self._lock:
                 messages = self._messages[socket.key]
-            if len(messages) == 0:
-                if not block:
-                    raise RuntimeError(f"No message to receive on socket {socket.key}")
-            else:
-                with self._lock:
+                has_msg = len(messages) > 0
+                if has_msg:
                     msg = messages.pop(0)
+            if has_msg:
                 self._logger.debug(f"Got message {msg} for socket {socket.key}")
                 return msg
+            if not block:
+                raise RuntimeError(f"No message to receive on socket {socket.key}")
             if timeout is not None:
                 t_now = timer()
                 t_elapsed = t_now - t_start
